@@ -242,11 +242,125 @@ def run(tier, seed, only=None):
                         obs.append(oblig.Ob("Rotate keeps the reference axis [%d,%d]" % (j, k), lhs=rap * out[nx - 1, j, k] + (ONE - rap) * out[0, j, k], rhs=refa[j, k],
                                             assume=ma + rap_assume, meta={"family": "twist acts about the reference axis", "idx": [0, j, k]}))
                 run_obligations(rep, "Rotate effect[%s]" % cn, obs, timeout, levels=(1, 2), fixed=fixed, family=lambda ob: "Rotate: " + ob.meta["family"])
+    group_chain(rep, tier, timeout)
     splines(rep)
     rep.bounds = {"meshes": [c[0] for c in cfgs], "ref_axis_pos": "symbolic in [0,1]"}
     rep.assumptions = ["real arithmetic", "input meshes have chordwise lines at constant y, strictly increasing y, the symmetric root on y = 0 at the last index "
                        "(full-span meshes mirror-symmetric in y about the centre node)", "the chain's no-op property is the composition of the per-component no-ops"]
     return rep.finish("C13: per-transformation no-op at default values and documented effect as SMT identities on a symbolic mesh")
+
+
+def group_chain(rep, tier, timeout):
+    """The real GeometryMesh group: its own sub-components (with the options the group's setup gave them) are chained
+    as the group connects them, on a symbolic mesh; the reference axis is the one the *surface dictionary* asks for."""
+    import openmdao.api as om
+    from openaerostruct.geometry.geometry_mesh import GeometryMesh
+
+    names = ["taper", "scale_x", "sweep", "shear_x", "stretch", "shear_y", "dihedral", "shear_z", "rotate"]
+    dv_of = {"taper": "taper", "scale_x": "chord", "sweep": "sweep", "shear_x": "xshear", "stretch": "span", "shear_y": "yshear",
+             "dihedral": "dihedral", "shear_z": "zshear", "rotate": "twist"}
+    cfgs = [("symL_2x3", 2, 3, True, 0.625), ("full_3x3", 3, 3, False, 0.0)]
+    if tier == "thorough":
+        cfgs += [("symL_3x4", 3, 4, True, 1.0), ("full_2x5", 2, 5, False, 0.625), ("symL_2x3_default", 2, 3, True, None)]
+    for (cn, nx, ny, symm, rapv) in cfgs:
+        cm = K.rect_mesh(nx, ny, symm)
+        surf = K.surface_from_mesh(cm, symm, name="wing", taper=1.0, sweep=0.0, dihedral=0.0, span=float((cm[0, -1, 1] - cm[0, 0, 1]) * (2 if symm else 1)),
+                                   chord_cp=np.ones(2), twist_cp=np.zeros(2), xshear_cp=np.zeros(2), yshear_cp=np.zeros(2), zshear_cp=np.zeros(2))
+        if rapv is not None:
+            surf["ref_axis_pos"] = rapv
+        rap = S(0.25 if rapv is None else rapv)
+        prob = om.Problem(reports=False)
+        prob.model.add_subsystem("g", GeometryMesh(surface=surf))
+        prob.setup()
+        prob.final_setup()
+        rep.encode(GeometryMesh)
+        comps = {n: SymComp.from_instance(getattr(prob.model.g, n), prob) for n in names}
+        m, massume = sym_mesh(nx, ny, symm, flat=True)  # flat chords (dihedral allowed): the families without the known Rotate finding
+        ref = rap * m[nx - 1] + (ONE - rap) * m[0]
+        cur_span = (ref[ny - 1, 1] - ref[0, 1]) * (2 if symm else 1)
+        defaults = {"taper": [ONE], "chord": np.ones(ny), "sweep": [ZERO], "xshear": np.zeros(ny), "span": [cur_span], "yshear": np.zeros(ny),
+                    "dihedral": [ZERO], "zshear": np.zeros(ny), "twist": np.zeros(ny)}
+
+        def chain(dvs):
+            comps["taper"].comp.options["mesh"] = m
+            try:
+                cur = None
+                for n in names:
+                    sc = comps[n]
+                    ins = {dv_of[n]: dvs[dv_of[n]]}
+                    if n != "taper":
+                        ins["in_mesh"] = cur
+                    paths = sc.sym(ins, assumptions=massume)
+                    if len(paths) != 1:
+                        raise RuntimeError("%s: %d paths in the group chain" % (n, len(paths)))
+                    cur = paths[0].result["outputs"]["mesh"]
+                return cur
+            finally:
+                comps["taper"].comp.options["mesh"] = cm
+
+        out0 = chain(defaults)
+        obs = idents("GeometryMesh defaults", out0, m, assume=massume, meta={"family": "with default values the geometry group returns the input mesh unchanged", "kind": "default"})
+        tw = symarray("twist", (ny,))
+        outt = chain(dict(defaults, twist=tw))
+        for j in range(ny):
+            for k in range(3):
+                obs.append(oblig.Ob("group twist keeps the reference axis [%d,%d]" % (j, k), lhs=rap * outt[nx - 1, j, k] + (ONE - rap) * outt[0, j, k], rhs=ref[j, k], assume=massume,
+                                    meta={"family": "twist through the geometry group acts about the surface's reference axis", "kind": "twist", "idx": [0, j, k]}))
+            c_in = sum(((m[nx - 1, j, k] - m[0, j, k]) ** 2 for k in range(3)), ZERO)
+            c_out = sum(((outt[nx - 1, j, k] - outt[0, j, k]) ** 2 for k in range(3)), ZERO)
+            obs.append(oblig.Ob("group twist preserves chord %d" % j, lhs=c_out, rhs=c_in, assume=massume,
+                                meta={"family": "twist through the geometry group preserves the chord length", "kind": "twist", "idx": [0, j, 0]}))
+        ch = symarray("chord", (ny,))
+        outc = chain(dict(defaults, chord=ch))
+        for j in range(ny):
+            for k in range(3):
+                obs.append(oblig.Ob("group chord scaling keeps the reference axis [%d,%d]" % (j, k), lhs=rap * outc[nx - 1, j, k] + (ONE - rap) * outc[0, j, k], rhs=ref[j, k], assume=massume,
+                                    meta={"family": "chord scaling through the geometry group acts about the surface's reference axis", "kind": "chord", "idx": [0, j, k]}))
+        tpv = var("taper")
+        outp = chain(dict(defaults, taper=[tpv]))
+        for j in range(ny):
+            for k in range(3):
+                obs.append(oblig.Ob("group taper keeps the reference axis [%d,%d]" % (j, k), lhs=rap * outp[nx - 1, j, k] + (ONE - rap) * outp[0, j, k], rhs=ref[j, k], assume=massume,
+                                    meta={"family": "taper through the geometry group acts about the surface's reference axis", "kind": "taper", "idx": [0, j, k]}))
+
+        def rp(ob, env, surf=surf, m=m, nx=nx, ny=ny, rapv=rapv, symm=symm):
+            envf = model.FillEnv(env)
+            mv = num_inputs({"m": m}, envf)["m"]
+            s2 = dict(surf, mesh=mv)
+            r = 0.25 if rapv is None else rapv
+            rr = r * mv[-1] + (1 - r) * mv[0]
+            s2["span"] = float((rr[-1, 1] - rr[0, 1]) * (2 if symm else 1))
+            p = om.Problem(reports=False)
+            p.model.add_subsystem("g", GeometryMesh(surface=s2), promotes=["*"])
+            p.setup()
+            kind = ob.meta["kind"]
+            if kind == "twist":
+                p.set_val("twist", [envf["twist[%d]" % j] for j in range(ny)])
+            elif kind == "chord":
+                p.set_val("chord", [envf["chord[%d]" % j] for j in range(ny)])
+            elif kind == "taper":
+                p.set_val("taper", envf["taper"])
+            p.run_model()
+            out = np.array(p.get_val("mesh"))
+            if kind == "default":
+                idx = tuple(ob.meta["idx"])
+                return model.differs(out[idx], mv[idx], 1e-7), "GeometryMesh at default values: mesh%s = %.9g, input %.9g" % (list(idx), out[idx], mv[idx])
+            if ob.id.startswith("group twist preserves"):
+                j = ob.meta["idx"][1]
+                a, b = np.linalg.norm(out[-1, j] - out[0, j]), np.linalg.norm(mv[-1, j] - mv[0, j])
+                return model.differs(a, b, 1e-7), "chord length of section %d after twist %.9g, before %.9g" % (j, a, b)
+            _, j, k = ob.meta["idx"]
+            got = r * out[-1, j, k] + (1 - r) * out[0, j, k]
+            return model.differs(got, rr[j, k], 1e-7), "reference axis (ref_axis_pos=%g) of section %d component %d moved from %.9g to %.9g under %s" % (r, j, k, rr[j, k], got, kind)
+
+        nominal = {}
+        for j in range(ny):
+            nominal["y[%d]" % j] = float(cm[0, j, 1])
+            nominal["zs[%d]" % j] = 0.05 * j
+            for i in range(nx):
+                nominal["x[%d,%d]" % (i, j)] = float(cm[i, j, 0]) + 0.1 * j
+        run_obligations(rep, "GeometryMesh group chain [%s, ref_axis_pos=%s]" % (cn, rapv), obs, timeout, levels=(1, 2), replay=rp, nominal=nominal,
+                        family=lambda ob: "GeometryMesh: " + ob.meta["family"], fixed={"taper": 0.6})
 
 
 def splines(rep):
